@@ -187,11 +187,38 @@ func (p c01) Run(c *core.Ctx) {
 			c.Distinct("shapes_"+strings.ReplaceAll(shape, " ", "_"), sc.GraphSig())
 		}
 		if len(problems) > 0 {
-			class := ""
-			if plan != nil && earlyRefOfFailedAttemptEscaped(ev) {
-				class = "F-C01-dependent-of-failed-attempt"
+			detail := failDetail(sc, r, map[string]any{"problems": problems, "substitution_plan": plan})
+			classOf := func(pb string) string {
+				if strings.HasPrefix(pb, world.LookupMismatch) {
+					// input class of the second known finding: the object was obtained through a lookup while the
+					// component was in creation, and the plan replaces that component around initialization by
+					// another object (lookups record no dependent, so the container cannot refuse the start)
+					rest := strings.TrimPrefix(pb, world.LookupMismatch)
+					if i := strings.Index(rest[1:], "\""); i >= 0 {
+						if pl, ok := plan[rest[1:1+i]]; ok && (pl.After || pl.Before) && !pl.Same {
+							return "F-C01-lookup-during-creation-then-replaced"
+						}
+					}
+					// (a reference obtained from an attempt that failed later is the other known class)
+				}
+				if plan != nil && earlyRefOfFailedAttemptEscaped(ev) {
+					return "F-C01-dependent-of-failed-attempt"
+				}
+				return ""
 			}
-			c.Fail(class, problems[0], failDetail(sc, r, map[string]any{"problems": problems, "substitution_plan": plan}))
+			knownMsg, knownClass := "", ""
+			for _, pb := range problems {
+				cl := classOf(pb)
+				if cl != "" && core.IsKnown("C01", cl) {
+					if knownMsg == "" {
+						knownMsg, knownClass = pb, cl
+					}
+					continue
+				}
+				c.Fail(cl, pb, detail)
+				return
+			}
+			c.Fail(knownClass, knownMsg, detail)
 			return
 		}
 		if o == 0 && c.WantSample() && shape != "dag" {
